@@ -315,6 +315,11 @@ theorem iterator_any_batch_spec (tables : List (Table α)) (b : Nat) (hb : 0 < b
 and so is its cursor) or eager; `step` is one call, `run` a history of calls.  `Fr.listRows` is the
 list the frame materialises to — the rows it holds. -/
 
+/-- Nothing on the conversion path (`DataFrame.arrow`, `DataFrame.pandas`, `to_arrow`, `to_pandas`) stores anything on the
+frame it converts (generated from the source: no attribute of `self` / `dataset` is assigned there).  This is what makes
+`arrow(size)` a function of the rows held — the hypothesis under which `step` translates it as `toArrow`. -/
+theorem conversion_writes_nothing_spec : Gen.ArrowExpr.conversionWritesFrame = false := by decide
+
 /-- **A conversion does not change the frame and depends only on the rows it holds.**  For every
 frame state (lazily backed with any iterator state, or eager with any cursor) and every size:
 `arrow(size)` returns the table `to_arrow` builds from the frame's rows, and afterwards the frame
@@ -324,11 +329,11 @@ theorem arrow_keeps_frame (names : List String) (f : Fr (List α)) (size : Optio
     (step names f (.arrow size)).1.listRows = f.listRows ∧
     (step names f (.arrow size)).1.isLazy = false := by
   refine ⟨?_, materialize_listRows f, materialize_not_lazy f⟩
-  simp only [step, materialize_listRows]
+  simp [step, convert, conversion_writes_nothing_spec, materialize_listRows]
 
 /-- What each call does to the rows a frame holds (`rowsAfter`, written out in
 `Lemmas/ArrowFrame.lean`): a cursor fetch on a frame that is *still lazy* takes the fetched rows out
-of the frame (cursor and row source are one object), `append` adds a row to an eager frame, every
+of the frame (cursor and row source are one object), `append` adds a row (materialising a lazy frame), every
 other call — conversions, `len`, iteration, `head`, fetches on an eager frame — leaves them alone. -/
 theorem call_effect_on_rows (names : List String) (f : Fr (List α)) (op : Op (List α)) :
     (step names f op).1.listRows = rowsAfter f.isLazy f.listRows op :=
@@ -363,6 +368,46 @@ theorem conversion_repeatable (names : List String) :
         simp only [List.getElem?_cons_succ] at hi
         simp only [run, List.getElem?_cons_succ]
         rw [ih2 i size hi, hrows]
+
+/-- **Every conversion sees the frame as it is when it is made.**  In *every* history of calls on one frame —
+appends, cursor fetches, observations, earlier conversions with any sizes, in any order, whatever the frame's
+state at the start (lazily backed or eager) — the `i`-th call, if it is `arrow(size)`, returns the table
+`to_arrow` builds from the rows the frame holds *after the first `i` calls* (`(run … (ops.take i)).2.listRows`;
+how each call changes those rows is `call_effect_on_rows`).  Nothing is carried from one conversion to the
+next: a conversion made after an `append` has the appended row, one made after another conversion with
+another size is not that conversion's table. -/
+theorem conversion_sees_current_rows (names : List String) :
+    ∀ (ops : List (Op (List α))) (f : Fr (List α)) (i : Nat) (size : Option Int),
+      ops[i]? = some (.arrow size) →
+        (run names f ops).1[i]? =
+          some (.table (toArrow names (run names f (ops.take i)).2.listRows size)) := by
+  intro ops
+  induction ops with
+  | nil => intro f i size h; simp at h
+  | cons op ops ih =>
+    intro f i size hi
+    cases i with
+    | zero =>
+      simp only [List.getElem?_cons_zero, Option.some.injEq] at hi
+      subst hi
+      simp only [run, List.getElem?_cons_zero, List.take_zero, (arrow_keeps_frame names f size).1]
+    | succ i =>
+      simp only [List.getElem?_cons_succ] at hi
+      simp only [run, List.getElem?_cons_succ, List.take_succ_cons]
+      exact ih (step names f op).1 i size hi
+
+/-- The session of C11-w7s2 in the model: convert, append, convert again — the second table has the appended
+row; and the same on a frame that was lazily backed when the first conversion was made. -/
+theorem append_between_conversions (names : List String) (rows : List (List α)) (r : List α) :
+    (run names (Fr.ofList rows) [.arrow none, .append r, .arrow none]).1[2]? =
+      some (.table (toArrow names (rows ++ [r]) none)) ∧
+    ∀ s : It (List α), (run names (.lazy s) [.arrow none, .append r, .arrow none]).1[2]? =
+      some (.table (toArrow names (drain s ++ [r]) none)) := by
+  refine ⟨?_, fun s => ?_⟩
+  · have h := conversion_sees_current_rows names [.arrow none, .append r, .arrow none] (Fr.ofList rows) 2 none rfl
+    rw [h]; rfl
+  · have h := conversion_sees_current_rows names [.arrow none, .append r, .arrow none] (.lazy s) 2 none rfl
+    rw [h]; rfl
 
 /-- The frame `DataFrame.from_arrow(tables)` returns holds one row per Arrow row, in order. -/
 theorem from_arrow_frame_rows (tables : List (Table α)) :
@@ -478,6 +523,11 @@ Full statement (FALSE of the code as it exists, see the four `…_counterexample
         c'.scale = c.scale ∧ (c.type = .ARRAY → c'.elem = c.elem)
 -/
 
+/-- The column name is handed over as it is in both directions (generated from the source): `arrow_field` passes
+`self.name` to `pyarrow.field`, and `FlatColumn.from_arrow` passes the field's name (itself, or `str()` of it — not a
+normalised, case-folded, stripped or defaulted form of it) to the column. -/
+theorem field_name_carried_spec : Gen.Arrow.carriesName = true ∧ Gen.Arrow.fieldPassesName = true := by decide
+
 /-- **Every Orso type except STRUCT and JSONB maps to an Arrow type that maps back to the same
 Orso type with the same precision, scale and element type** — outside the open findings.  The
 two tables are the generated ones; the decimal part covers the whole grid `1 ≤ p ≤ 38`,
@@ -497,7 +547,7 @@ theorem typemap_roundtrip_partial (c : Col) (h : InScope c) (hopen : ¬ OpenFind
       · exact h0
     have hb := typemap_decimal_grid p' (List.mem_range.mpr (by omega)) s' (List.mem_range.mpr (by omega)) hp0
     rw [← forthTy_elem_irrelevant _ (by decide) e] at hb
-    obtain ⟨c', h0, h1, _, h3, h4, h5⟩ := roundtripCol_of_backTy name _ e _ _ nullable _ hb
+    obtain ⟨c', h0, h1, _, h3, h4, h5⟩ := roundtripCol_of_backTy name _ e _ _ nullable _ field_name_carried_spec.1 field_name_carried_spec.2 hb
     rw [normalise_spec.1 p' s' hp0] at h3 h4
     exact ⟨c', h0, h1, h3, h4, (by intro h; cases h), h5⟩
   · obtain ⟨rfl, rfl⟩ := hnd htd
@@ -509,7 +559,7 @@ theorem typemap_roundtrip_partial (c : Col) (h : InScope c) (hopen : ¬ OpenFind
         have h2 : el ≠ .DECIMAL := fun h => hopen (Or.inr (Or.inl ⟨rfl, Or.inr (by rw [h])⟩))
         cases el <;> simp_all [goodElems]
       have hb := typemap_array_elements el hgood
-      obtain ⟨c', h0, h1, h2, h3, h4, h5⟩ := roundtripCol_of_backTy name _ (some el) _ _ nullable _ hb
+      obtain ⟨c', h0, h1, h2, h3, h4, h5⟩ := roundtripCol_of_backTy name _ (some el) _ _ nullable _ field_name_carried_spec.1 field_name_carried_spec.2 hb
       rw [normalise_spec.2 _ _ _ (show OrsoTy.ARRAY ≠ OrsoTy.DECIMAL by decide)] at h3 h4
       exact ⟨c', h0, h1, h3, h4, fun _ => h2, h5⟩
     · have hgood : t ∈ goodScalars := by
@@ -517,7 +567,7 @@ theorem typemap_roundtrip_partial (c : Col) (h : InScope c) (hopen : ¬ OpenFind
         cases t <;> simp_all [goodScalars]
       have hb := typemap_scalars t hgood
       rw [← forthTy_elem_irrelevant _ hta e] at hb
-      obtain ⟨c', h0, h1, _, h3, h4, h5⟩ := roundtripCol_of_backTy name _ e _ _ nullable _ hb
+      obtain ⟨c', h0, h1, _, h3, h4, h5⟩ := roundtripCol_of_backTy name _ e _ _ nullable _ field_name_carried_spec.1 field_name_carried_spec.2 hb
       rw [normalise_spec.2 _ _ _ htd] at h3 h4
       exact ⟨c', h0, h1, h3, h4, fun h => absurd h hta, h5⟩
 
@@ -646,7 +696,7 @@ theorem field_name_nullable_carried (m : Bool) (f : ArrowField) (c : Col)
   · cases h
   · simp only [Option.some.injEq] at h
     subst h
-    exact ⟨by simp [Gen.Arrow.carriesName], by simp [Gen.Arrow.carriesNullable]⟩
+    exact ⟨by simp [field_name_carried_spec.1], by simp [Gen.Arrow.carriesNullable]⟩
 
 /-! ## Separate conversions whose results are edited in between (fourth pass)
 
